@@ -117,11 +117,8 @@ def replaceJudge (f : List String) (out : String) : String :=
      errlens     ','-separated  <status>=<length of the default error body>
      out = per directive (';') its lines ('|') as id.status.size, then '#', then per request status.size
 -/
-open Casket.Log in
-/-- `httpserver.Path.Matches` restricted to the clean paths the generator uses: prefix test on
-lower-cased text, "/" and "" match everything. -/
-def matchPath (p base : Bytes) : Bool :=
-  base == [47] || base == [] || isPrefix (base.map lowerByte) (p.map lowerByte)
+/-- `httpserver.Path.Matches` restricted to the clean paths the generator uses -/
+def matchPath (p base : List UInt8) : Bool := Casket.Log.cleanPathMatches p base
 
 open Casket.Log in
 def parseDirective (s : String) : Option Directive :=
@@ -205,8 +202,8 @@ def logJudge (f : List String) (out : String) : String :=
     | some obs, some clients =>
       if clients.length ≠ c.reqs.length then "bad:unparsable:" ++ out else
       if obs.any fun (id, _) => id ≥ c.reqs.length then "bad:unwanted-line:line for a request that was never made" else
-      Casket.LogSpec.firstBad <| ((List.range c.reqs.length).zip (c.reqs.zip clients)).map fun (id, ((p, o), (cs, cz))) =>
-        Casket.LogSpec.verdict matchPath c.ds p o.panics ((obs.filter fun x => x.1 == id).map (·.2)) cs cz
+      (Casket.LogSpec.firstBad <| ((List.range c.reqs.length).zip (c.reqs.zip clients)).map fun (id, ((p, o), (cs, cz))) =>
+        Casket.LogSpec.verdictClass matchPath c.ds p o.panics ((obs.filter fun x => x.1 == id).map (·.2)) cs cz).text
     | _, _ => "bad:unparsable:" ++ out
   | _, _ => "bad:unparsable:" ++ out
 
